@@ -308,7 +308,7 @@ func init() {
 			{{K: "arr", Addr: 2, TI: 1}, {K: "arr", Addr: 1, TI: 1}, {K: "map", Addr: 1, TI: 2}},
 		},
 		MaxBulk: 40, Keys: []int{12, 64},
-		ValW:    map[string]int{"u": 8, "s0": 3, "s1": 4, "s2": 3, "s5": 3, "s6": 1, "some": 2, "arr": 4, "map": 3},
+		ValW:     map[string]int{"u": 8, "s0": 3, "s1": 4, "s2": 3, "s5": 3, "s6": 1, "some": 2, "arr": 4, "map": 3},
 		MaxDepth: 2, MaxElems: 6, AcqW: [3]int{8, 1, 1},
 		CollLimits: []uint32{255}, NondetPct: 50,
 	})
